@@ -282,9 +282,11 @@ package expressions
 
 // The table of precedence groups as initialised: thresholds strictly descending, i.e. the passes of
 // executeExpr go from the tightest-binding group (* /) to the loosest, and + - come before comparisons.
-//@ func init [C06]
+//@ func init [C06 C07]
 //@   check none
 //@   scope functional
+// && binds tighter than || (its own pass comes first), so `a || b && c` is `a || (b && c)` (C07)
+//@   at store orderOfOperations#1 assert orderOfOperations[5] == symbols.LogicalAnd && orderOfOperations[6] == symbols.LogicalOr
 //@   at store orderOfOperations#1 assert len(orderOfOperations) == 9 && orderOfOperations[0] == symbols.Multiply && orderOfOperations[1] == symbols.Add && orderOfOperations[3] == symbols.GreaterThan && orderOfOperations[4] == symbols.EqualTo
 //@   at store orderOfOperations#1 assert forall(i, 1, len(orderOfOperations), orderOfOperations[i] < orderOfOperations[i-1])
 
